@@ -20,6 +20,11 @@ fn check<const N: usize>(data: &[u8; N], n: usize, m: u8, o: &Obs<N>) {
     assert!(!o.overflow, "C40.no_more_groups_or_items_than_input");
     // the groups concatenate to the input
     assert!(o.n_items == n, "C40.concatenation_has_the_input_length");
+    if n == 0 {
+        assert!(o.groups == 0, "C40.empty_input_yields_no_group");
+        return;
+    }
+    assert!(o.groups >= 1, "C40.non_empty_input_yields_a_group");
     let i: usize = kani::any();
     kani::assume(i < n);
     assert!(o.items[i] == data[i], "C40.concatenation_equals_input");
@@ -43,12 +48,6 @@ fn check<const N: usize>(data: &[u8; N], n: usize, m: u8, o: &Obs<N>) {
     // adjacent groups have different keys (runs are maximal)
     if h + 1 < o.groups {
         assert!(o.keys[h] != o.keys[h + 1], "C40.adjacent_groups_have_different_keys");
-    }
-    // empty input: no group
-    if n == 0 {
-        assert!(o.groups == 0, "C40.empty_input_yields_no_group");
-    } else {
-        assert!(o.groups >= 1, "C40.non_empty_input_yields_a_group");
     }
 }
 
@@ -110,9 +109,9 @@ fn group_by_slice<const N: usize>() {
 
 /// Groups across the boundary of two flattened slices (the mmapper's use: slabs of chunk states).
 #[kani::proof]
-#[kani::unwind(8)]
+#[kani::unwind(7)]
 fn c40_group_by_flattened() {
-    group_by_flattened::<5>();
+    group_by_flattened::<4>();
 }
 #[kani::proof]
 #[kani::unwind(10)]
@@ -159,5 +158,6 @@ fn group_by_flattened<const N: usize>() {
     }
     check(&data, n, m, &o);
     kani::cover!(o.groups == 1 && cut == 2 && n == N, "C40.cover.run_spans_the_slice_boundary");
+    kani::cover!(o.groups == 2 && cut == 1, "C40.cover.two_groups_across_slices");
     kani::cover!(cut == 0 && n > 0, "C40.cover.empty_first_slice");
 }
